@@ -18,20 +18,22 @@ from mc.props.c07 import sig
 ID = 'C16'
 
 BOUNDS = {
-    'quick': dict(chars=4, scan_chars=5, units=3, nbh_nodes=1, radius=1, nbh2=[]),
-    'thorough': dict(chars=5, scan_chars=6, units=4, nbh_nodes=2, radius=1, nbh2=True),
+    'quick': dict(chars=4, scan_chars=5, units=3, tags=5, nbh_nodes=1, radius=1, nbh2=[]),
+    'thorough': dict(chars=5, scan_chars=6, units=4, tags=6, nbh_nodes=2, radius=1, nbh2=True),
 }
+# whole tags as symbols: every mis-nesting, stray closing tag and unclosed element of up to `tags` tags over three names
+TAGS_T = ['<a>', '</a>', '<b>', '</b>', '<i>', '</i>', '<br>', 'x']
 
 
 def describe(tier):
     b = BOUNDS[tier]
     return dict(
         rule='E1: all strings over the CSS source alphabet %s and the HTML source alphabet %s with <= %d characters (<= %d for the '
-             'scan-only functions and attributes/split_value), all sequences of <= %d HTML token-level units %s; E3: every string at '
+             'scan-only functions and attributes/split_value), all sequences of <= %d HTML token-level units %s and of <= %d whole tags %s; E3: every string at '
              'edit distance <= %d from the well-formed C09/C10 documents with <= %d nodes (distance 2 around the short seeds %s); x every position '
              '-1..len+1; HTML in both modes. Functions: html_matcher.scan/match/balanced_outward/balanced_inward/attributes, '
              'css_matcher.scan/match/balanced_outward/balanced_inward/split_value. Transition = one appended symbol / edit / caret move.' % (
-                 SIGMA_C, SIGMA_H, b['chars'], b['scan_chars'], b['units'], UNITS_H, b['radius'], b['nbh_nodes'], NBH2_SEEDS if b['nbh2'] else []),
+                 SIGMA_C, SIGMA_H, b['chars'], b['scan_chars'], b['units'], UNITS_H, b['tags'], TAGS_T, b['radius'], b['nbh_nodes'], NBH2_SEEDS if b['nbh2'] else []),
         nontrivial='at least one of the functions reported a tag / token / range for the string.',
         bounds=b,
         assumptions=['alphabets hold one representative per character class the scanners distinguish'],
@@ -56,6 +58,8 @@ def shards(tier):
                 out.append(dict(lang='html', kind='chars', full=False, minlen=b['chars'] + 1, **sh))
     for sh in explore.strings_shards(UNITS_H, b['units'], 2 if b['units'] >= 4 else 1):
         out.append(dict(lang='html', kind='units', full=True, **sh))
+    for sh in explore.strings_shards(TAGS_T, b['tags'], 2):
+        out.append(dict(lang='html', kind='tags', full=True, **sh))
     for lang in ('html', 'css'):
         seeds = seed_docs(lang, b['nbh_nodes'])
         for i in range(0, len(seeds), 4):
@@ -276,7 +280,7 @@ def run_shard(shard, ctx, tier):
                     seen.add(w)
                     gen.append(w)
     else:
-        alpha = UNITS_H if shard['kind'] == 'units' else (SIGMA_H if lang == 'html' else SIGMA_C)
+        alpha = UNITS_H if shard['kind'] == 'units' else TAGS_T if shard['kind'] == 'tags' else (SIGMA_H if lang == 'html' else SIGMA_C)
         minlen = shard.get('minlen', 0)
         gen = (''.join(t) for t in explore.strings_of_shard(alpha, shard) if len(t) >= minlen)
     s = None
